@@ -165,8 +165,16 @@ func renderObsProcs(sc *Scenario, meta *c20Meta) {
 				// a data-changing statement that matches no record: for the model a write
 				// access (the table is held for update from here) without any change
 				q := fmt.Sprintf("UPDATE %s SET n = n + 1 WHERE id = 99999;", t)
-				if op.Form == 1 {
+				switch op.Form {
+				case 1:
 					q = fmt.Sprintf("DELETE FROM %s WHERE id = 99999;", t)
+				case 2:
+					// ALTER TABLE ... SET to the value the attribute already has: a data-changing access that changes nothing
+					q = fmt.Sprintf("ALTER TABLE %s SET HEADER TO TRUE;", t)
+				case 3:
+					q = fmt.Sprintf("ALTER TABLE %s SET ENCLOSE_ALL TO FALSE;", t)
+				case 4:
+					q = fmt.Sprintf("ALTER TABLE %s SET LINE_BREAK TO LF;", t)
 				}
 				s = append(s, fmt.Sprintf("ECHO '@W %d';", i), q)
 			case "inc":
@@ -252,7 +260,7 @@ func (c20) Gen(seed uint64, tier string) *Scenario {
 					if r.Bool(0.7) {
 						ops = append(ops, ObsOp{Kind: "touch", Table: tb, Form: r.Pick(0, 1, 2, 3, 4, 5, 6, 7, 8, 9, 10, 11, 12, 13, 14, 15, 16, 17, 13, 14, 18, 19)})
 					} else {
-						ops = append(ops, ObsOp{Kind: "noop", Table: tb, Form: r.Intn(2)})
+						ops = append(ops, ObsOp{Kind: "noop", Table: tb, Form: r.Intn(5)})
 					}
 				case 4:
 					ops = append(ops, ObsOp{Kind: "selfu", Table: tb, Form: r.Pick(0, 0, 1)})
